@@ -5,7 +5,7 @@
    Spec:  Uri/Spec.v (RFC 3986 2.1 / 3 / 5.2.4, RFC 7252 6.4 / 6.5). *)
 From LibcoapV Require Import Base.Tactics Base.Bytes Wire.OptCodec Uri.Uri Uri.Split Uri.Spec
   Uri.DotsProofs Uri.SegProofs Uri.PathProofs Uri.RebuildProofs Uri.SplitProofs Uri.Into
-  Uri.IntoProofs Uri.BufProofs Wire.OptCodec.
+  Uri.IntoProofs Uri.BufProofs Uri.RfcProofs Wire.OptCodec.
 Local Open Scope Z_scope.
 
 (* ------------------------------------------------------------------ no overread, every input *)
@@ -87,6 +87,23 @@ Theorem C16_path_rfc_trailing_dot : forall ds,
   uri_ends_in_dot ds = true -> uri_rfc_resolve ds [] = [] :: uri_resolve ds [].
 Proof. exact uri_rfc_resolve_trailing. Qed.
 Print Assumptions C16_path_rfc_trailing_dot.
+
+(* [uri_rfc_resolve] is RFC 3986 5.2.4: the algorithm transcribed literally on strings (input
+   buffer / output buffer, rules 2A-2E) run on "/" ++ path equals the rendering of the resolved
+   raw segments, for every byte string *)
+Theorem C16_rfc3986_remove_dot_segments : forall p,
+  uri_rfc_remove_dot_segments (47 :: p) =
+  uri_render (rev (uri_rfc_resolve (uri_split_on uri_path_sep p) [])).
+Proof. exact uri_rfc_remove_dot_segments_path. Qed.
+Print Assumptions C16_rfc3986_remove_dot_segments.
+
+(* the two examples of RFC 3986 5.2.4: "/a/b/c/./../../g" -> "/a/g", "mid/content=5/../6" -> "mid/6" *)
+Theorem C16_rfc3986_examples :
+  uri_rfc_remove_dot_segments [47;97;47;98;47;99;47;46;47;46;46;47;46;46;47;103] = [47;97;47;103] /\
+  uri_rfc_remove_dot_segments [109;105;100;47;99;111;110;116;101;110;116;61;53;47;46;46;47;54]
+    = [109;105;100;47;54].
+Proof. split; reflexivity. Qed.
+Print Assumptions C16_rfc3986_examples.
 
 (* full statement "forall s, uri_spec_path s = uri_rfc_path s" does not hold (known finding
    F16-6, pinned by the unit tests t_parse_uri29/30): *)
